@@ -1,5 +1,6 @@
 import LibconfigModel.Step
 import LibconfigModel.WF
+import LibconfigModel.Locale
 /-
   Line-protocol driver: one operation per line on stdin, one canonical line on
   stdout.  The C harness (harness/drv_api.c) executes the same lines on the real
@@ -111,6 +112,7 @@ def parseOp (w : List String) : Option Op :=
   | ["destroy"] => some .destroy
   | ["read_string", s] => do some (.read (.string (← unhex s)))
   | ["read_stream", s] => do some (.read (.stream (← unhex s)))
+  | ["read_chunked", _, s] => do some (.read (.stream (← unhex s)))
   | ["read_file", p] => do some (.read (.file (← unhex p)))
   | ["get", k, p] => do some (.get (← parseKind k) (← parsePath p))
   | ["get_elem_val", k, p, i] => do some (.getElemVal (← parseKind k) (← parsePath p) (← i.toInt?))
@@ -124,6 +126,8 @@ def parseOp (w : List String) : Option Op :=
   | ["get_format", p] => do some (.getFormat (← parsePath p))
   | ["get_option", o] => do some (.getOption (← o.toNat?))
   | ["write"] => some .write
+  | ["write_file", p] => do some (.writeFile (← unhex p))
+  | ["cat", p] => do some (.cat (← unhex p))
   | ["mkfile", p, c] => do some (.mkfile (← unhex p) (← unhex c))
   | ["mkdir", p] => do some (.mkdir (← unhex p))
   | ["rmfile", p] => do some (.rmfile (← unhex p))
@@ -173,6 +177,47 @@ def stepLine (st : State) (w : List String) : State × String :=
       | none => (st, "bad-op")
     | none => (st, "bad-op")
   | ["err"] => (st, s!"{c.errType} {hexOpt c.errText} {hexOpt c.errFile} {c.errLine}")
+  | ["loccase", g, t, entry, text] =>
+    -- C15: read + write + write_file/read_file round trip under a locale set-up
+    match g.toNat?, t.toNat?, unhex text with
+    | some g, some t, some text =>
+      let l : LocaleState := { globalRadix := if g != 0 then 44 else 46, thread := if t != 0 then some 44 else none }
+      let src : Source := match entry with
+        | "string" => .string text
+        | "stream" => .stream text
+        | _ => .file (bytesOfString "in.cfg")
+      let w : World := { files := [(bytesOfString "in.cfg", some text)] }
+      -- every number is parsed / formatted with the radix the thread sees between override and restore
+      let (r, l1) := withCLocale l fun radix =>
+        let r := read w Config.init src readFuel
+        (r, applyRadix radix (r.cfg.write Generated.FLOAT_BUF_SIZE))
+      let (rd, out) := r
+      let (r2, l2) := withCLocale l1 fun radix =>
+        let r2 := read { files := [(bytesOfString "out.cfg", some out)] } Config.init (.file (bytesOfString "out.cfg")) readFuel
+        (r2.ok, applyRadix radix (r2.cfg.write Generated.FLOAT_BUF_SIZE))
+      (st, s!"{b2s rd.ok} {hex out} {b2s r2.1} {b2s (r2.2 == out)} {b2s (l2.thread == l.thread)} {b2s (l2.globalRadix == l.globalRadix)} {l.effective} {l2.effective}")
+    | _, _, _ => (st, "bad-op")
+  | ["wfcase", text, fsync, kind, param] =>
+    -- C12: parse a configuration, then config_write_file under the I/O faults the kind denotes
+    match unhex text, fsync.toNat?, param.toNat? with
+    | some text, some fsync, some param =>
+      let c0 := (read {} Config.init (.string text) readFuel).cfg
+      let c0 := c0.setOption OPT_FSYNC (fsync != 0)
+      let out := c0.write Generated.FLOAT_BUF_SIZE
+      let io : IOFaults :=
+        match kind with
+        | "fsize" => { writeOk := decide (out.length ≤ param) }
+        | "devfull" => { writeOk := out.isEmpty, fsyncOk := false }  -- fsync on a character device fails (EINVAL)
+        | "nodir" => { openOk := false }
+        | "isdir" => { openOk := false }
+        | "readonly" => { openOk := false }
+        | "fsyncfail" => { fsyncOk := false }
+        | "fclosefail" => { closeOk := false }
+        | _ => {}
+      let r := writeFile Generated.FLOAT_BUF_SIZE c0 io
+      let disk := if r.ret && kind != "devfull" then (match r.fileBytes with | some b => hex b | none => "-") else "-"
+      (st, s!"{b2s r.ret} {r.cfg.errType} {disk} {out.length}")
+    | _, _, _ => (st, "bad-op")
   | ["dump"] => (st, dumpCfg c)
   | ["wf"] => (st, if c.wfb then "wf ok" else "wf FAIL")
   | ["lookup_all"] => (st, if lookupAllFrom 64 c.root then "lookup_all ok" else "lookup_all FAIL")
